@@ -44,6 +44,63 @@ const (
 type slackState struct {
 	k   int
 	rel map[types.Object]int // immutable: copy on write
+	// imp: for boolean locals, "flag == v  =>  len-pos >= n" (n >= impTop: flag == v is impossible here).  This is
+	// what lets a loop driven by a flag (`for !done { … done = true … }`) keep the bound established where the flag
+	// was raised.  Immutable: copy on write.
+	imp map[impKey]int
+}
+
+type impKey struct {
+	o types.Object
+	v bool
+}
+
+const impTop = 1000
+
+func (s slackState) withImp(k impKey, n int) slackState {
+	m := make(map[impKey]int, len(s.imp)+1)
+	for kk, v := range s.imp {
+		m[kk] = v
+	}
+	if n <= 0 {
+		delete(m, k)
+	} else {
+		m[k] = n
+	}
+	return slackState{k: s.k, rel: s.rel, imp: m}
+}
+
+// flagIs records that the flag has value v here, where len-pos >= s.k.
+func (s slackState) flagIs(o types.Object, v bool) slackState {
+	return s.withImp(impKey{o, v}, s.k).withImp(impKey{o, !v}, impTop)
+}
+
+func (s slackState) forgetFlag(o types.Object) slackState {
+	if _, a := s.imp[impKey{o, true}]; !a {
+		if _, b := s.imp[impKey{o, false}]; !b {
+			return s
+		}
+	}
+	return s.withImp(impKey{o, true}, 0).withImp(impKey{o, false}, 0)
+}
+
+// cursorMoved adjusts the implications after pos grew by c (c < 0: the bound is lost altogether).
+func (s slackState) cursorMoved(c int, captured map[types.Object]bool) slackState {
+	if len(s.imp) == 0 {
+		return s
+	}
+	m := map[impKey]int{}
+	for k, v := range s.imp {
+		switch {
+		case v >= impTop/2:
+			if c >= 0 || !captured[k.o] {
+				m[k] = v
+			}
+		case c >= 0 && v-c > 0:
+			m[k] = v - c
+		}
+	}
+	return slackState{k: s.k, rel: s.rel, imp: m}
 }
 
 func (s slackState) with(o types.Object, r int) slackState {
@@ -56,7 +113,7 @@ func (s slackState) with(o types.Object, r int) slackState {
 	} else {
 		m[o] = r
 	}
-	return slackState{k: s.k, rel: m}
+	return slackState{k: s.k, rel: m, imp: s.imp}
 }
 
 func (s slackState) withK(k int) slackState {
@@ -66,7 +123,7 @@ func (s slackState) withK(k int) slackState {
 	if k > 64 {
 		k = 64
 	}
-	return slackState{k: k, rel: s.rel}
+	return slackState{k: k, rel: s.rel, imp: s.imp}
 }
 
 func joinSlack(a, b slackState) slackState {
@@ -85,7 +142,20 @@ func joinSlack(a, b slackState) slackState {
 			m[o] = r
 		}
 	}
-	return slackState{k: k, rel: m}
+	var imp map[impKey]int
+	for kk, va := range a.imp {
+		vb := b.imp[kk]
+		if vb < va {
+			va = vb
+		}
+		if va > 0 {
+			if imp == nil {
+				imp = map[impKey]int{}
+			}
+			imp[kk] = va
+		}
+	}
+	return slackState{k: k, rel: m, imp: imp}
 }
 
 func equalSlack(a, b slackState) bool {
@@ -94,6 +164,14 @@ func equalSlack(a, b slackState) bool {
 	}
 	for o, r := range a.rel {
 		if b.rel[o] != r {
+			return false
+		}
+	}
+	if len(a.imp) != len(b.imp) {
+		return false
+	}
+	for kk, v := range a.imp {
+		if b.imp[kk] != v {
 			return false
 		}
 	}
@@ -117,18 +195,19 @@ type slackTerm struct {
 }
 
 type slackFn struct {
-	c       *core.Ctx
-	rel     string
-	inf     *types.Info
-	fd      *ast.FuncDecl
-	fn      string
-	tracked types.Object // the *ror2Reader variable
-	posF    *types.Var
-	dataF   *types.Var
-	reader  *types.Named
-	all     *slackPkg
-	report  bool
-	seen    map[string]bool
+	captured map[types.Object]bool
+	c        *core.Ctx
+	rel      string
+	inf      *types.Info
+	fd       *ast.FuncDecl
+	fn       string
+	tracked  types.Object // the *ror2Reader variable
+	posF     *types.Var
+	dataF    *types.Var
+	reader   *types.Named
+	all      *slackPkg
+	report   bool
+	seen     map[string]bool
 }
 
 type slackPkg struct {
@@ -286,6 +365,17 @@ func (a *slackFn) assume(s slackState, e ast.Expr, val bool, depth int) slackSta
 func (a *slackFn) assumeAtom(s slackState, e ast.Expr, val bool, depth int) slackState {
 	e = core.Unparen(e)
 	switch x := e.(type) {
+	case *ast.Ident:
+		// a boolean local: the bound recorded where it was given this value holds again
+		if o, ok := core.ObjOf(a.inf, x).(*types.Var); ok && !o.IsField() && isBoolType(o.Type()) {
+			if n, has := s.imp[impKey{o, val}]; has {
+				if n >= impTop/2 {
+					return s.withK(64) // the flag cannot have this value here: the edge is not taken
+				}
+				s = s.withK(maxInt(s.k, n))
+			}
+			return s.flagIs(o, val)
+		}
 	case *ast.CallExpr:
 		// pure predicate on the tracked reader: inline
 		if depth < 2 {
@@ -293,6 +383,7 @@ func (a *slackFn) assumeAtom(s slackState, e ast.Expr, val bool, depth int) slac
 				if pd := a.all.preds[callee]; pd != nil && a.callOnTracked(x) {
 					sub := *a
 					sub.fd = pd
+					sub.captured = nil
 					sub.inf = a.c.M.PkgOf(callee).TypesInfo
 					sub.tracked = recvObj(sub.inf, pd)
 					sub.report = false
@@ -647,7 +738,7 @@ func (a *slackFn) transfer(s slackState, n ast.Node) slackState {
 	}
 	// 2. calls reset the bound
 	if a.resetsCursor(n) {
-		s = s.withK(0)
+		s = s.withK(0).cursorMoved(-1, a.capturedFlags())
 	}
 	// 3. effects of assignments
 	switch x := n.(type) {
@@ -697,6 +788,15 @@ func (a *slackFn) transfer(s slackState, n ast.Node) slackState {
 				for i, id := range vs.Names {
 					if o := a.inf.Defs[id]; o != nil {
 						s = s.with(o, a.relOf(s, vs.Values[i]))
+						if cv := core.ConstOf(a.inf, vs.Values[i]); cv != nil && cv.Kind() == constant.Bool {
+							s = s.flagIs(o, constant.BoolVal(cv))
+						}
+					}
+				}
+			} else if len(vs.Values) == 0 {
+				for _, id := range vs.Names {
+					if o := a.inf.Defs[id]; o != nil && isBoolType(o.Type()) {
+						s = s.flagIs(o, false)
 					}
 				}
 			}
@@ -736,7 +836,7 @@ func (a *slackFn) bumpPos(s slackState, c int) slackState {
 			m[o] = relLT
 		}
 	}
-	return slackState{k: maxInt(s.k-c, 0), rel: m}
+	return slackState{k: maxInt(s.k-c, 0), rel: m, imp: s.cursorMoved(c, a.capturedFlags()).imp}
 }
 
 func maxInt(a, b int) int {
@@ -809,6 +909,13 @@ func (a *slackFn) assign(s slackState, x *ast.AssignStmt) slackState {
 			if id, ok := core.Unparen(l).(*ast.Ident); ok {
 				if o := core.ObjOf(a.inf, id); o != nil {
 					s = s.with(o, rels[i])
+					if isBoolType(o.Type()) {
+						if cv := core.ConstOf(a.inf, x.Rhs[i]); cv != nil && cv.Kind() == constant.Bool {
+							s = s.flagIs(o, constant.BoolVal(cv))
+						} else {
+							s = s.forgetFlag(o)
+						}
+					}
 				}
 			}
 		}
@@ -836,9 +943,42 @@ func (a *slackFn) assign(s slackState, x *ast.AssignStmt) slackState {
 		return s
 	}
 	for _, o := range core.AssignedObjs(a.inf, x) {
-		s = s.with(o, relNone)
+		s = s.with(o, relNone).forgetFlag(o)
 	}
 	return s
+}
+
+func isBoolType(t types.Type) bool {
+	b, ok := t.Underlying().(*types.Basic)
+	return ok && b.Info()&types.IsBoolean != 0
+}
+
+// capturedFlags: boolean locals that a function literal of the analysed function mentions, or whose address is taken
+// (a call may then change them).
+func (a *slackFn) capturedFlags() map[types.Object]bool {
+	if a.captured != nil {
+		return a.captured
+	}
+	a.captured = map[types.Object]bool{}
+	for _, fl := range core.AllFuncLits(a.fd.Body) {
+		ast.Inspect(fl.Body, func(n ast.Node) bool {
+			if id, ok := n.(*ast.Ident); ok {
+				if o := a.inf.Uses[id]; o != nil {
+					a.captured[o] = true
+				}
+			}
+			return true
+		})
+	}
+	ast.Inspect(a.fd.Body, func(n ast.Node) bool {
+		if u, ok := n.(*ast.UnaryExpr); ok && u.Op == token.AND {
+			if o := core.ObjOf(a.inf, u.X); o != nil {
+				a.captured[o] = true
+			}
+		}
+		return true
+	})
+	return a.captured
 }
 
 func (a *slackFn) run() {
